@@ -160,17 +160,22 @@ func pick2(c bool, a, b string) string {
 	return b
 }
 
+func shortFn(fn string) string {
+	fn = strings.ReplaceAll(fn, "go.nanomsg.org/mangos/v3/", "")
+	return fn
+}
+
 func (r *RaceDet) report(g *G, a, b epoch, ka, kb string, desc func() string) {
 	vm := r.vm
 	pa, pb := vm.posStr(a.pos), vm.posStr(b.pos)
-	sites := []string{pa, pb}
-	sort.Strings(sites)
+	fns := []string{shortFn(a.fn), shortFn(b.fn)}
+	sort.Strings(fns)
 	d := ""
 	if desc != nil {
 		d = desc()
 	}
-	label := fmt.Sprintf("race/%s/%s|%s", d, sites[0], sites[1])
-	msg := fmt.Sprintf("unsynchronised %s at %s (%s) and %s at %s (%s) of %s", ka, pa, a.fn, kb, pb, b.fn, d)
+	label := fmt.Sprintf("race/%s/%s|%s", d, fns[0], fns[1])
+	msg := fmt.Sprintf("unsynchronised %s at %s (%s) and %s at %s (%s) of %s", ka, pa, shortFn(a.fn), kb, pb, shortFn(b.fn), d)
 	vm.ex.recordViolation(vm, g, label, msg, pb, nil)
 }
 
